@@ -13,7 +13,7 @@ from ..rt import scen
 from . import regkernel
 from .rtcommon import HOWS, RT_ASSUMPTIONS, make_replay
 
-NAMES = ["AtMostOnce", "AdoptReturnsNone", "AdoptReturnsObserved", "ExactlyOnceObserved", "RightFlavour", "ArgsExact"]
+NAMES = ["NoStrayStart", "AtMostOnce", "AdoptReturnsNone", "AdoptReturnsObserved", "ExactlyOnceObserved", "RightFlavour", "ArgsExact"]
 replay = make_replay(NAMES)
 ARGS = [([], {}), ([1, "two"], {}), ([], {"k": [1, 2]}), ([None, 0], {"a": "", "b": 2.5})]
 
